@@ -167,7 +167,8 @@ Definition wrap (c : cfg) : res :=
     let is_frozen := c_frozen c in
     let has_own_setattr := ad && has_own_attribute c Dsa in
     if has_own_setattr && is_frozen then Err EValue else
-    (* _ClassBuilder.__init__ *)
+    (* _ClassBuilder.__init__; [default=slots or _inherits_attrs_getstate(cls)]: the second
+       disjunct is about attrs-made methods of an attrs base - bases are plain here *)
     let gs := determine_whether_to_implement c (c_gs c) ad gs_dunders (slots c) in
     let w_frozen := if is_frozen then [(Dsa, WGen); (Dda, WGen)] else [] in
     let w_gs := if gs then [(Dg, WGen); (Dst, WGen)] else [] in
